@@ -25,6 +25,7 @@ pub fn dispatch(op: &str, case: &Value) -> Value {
         "response" => op_response(case),
         "response_headers" => op_response_headers(case),
         "ws_handshake" => op_ws_handshake(case),
+        "ws_stream" => op_ws_stream(case),
         "typed_request" => op_typed_request(case),
         "openapi" => op_openapi(case),
         "echo" => op_echo(case),
@@ -1021,6 +1022,75 @@ async fn ws_channel(
         }
     }
     Ok(())
+}
+
+#[dropshot::channel { protocol = WEBSOCKETS, path = "/ws-exact" }]
+async fn ws_exact_channel(
+    _rqctx: RequestContext<()>,
+    upgraded: dropshot::WebsocketConnection,
+) -> dropshot::WebsocketChannelResult {
+    // reads a 12-byte message with read_exact (partially filled buffers between polls), answers with a vectored write of three slices
+    use tokio::io::{AsyncReadExt, AsyncWriteExt};
+    let mut raw = upgraded.into_inner();
+    let mut msg = [0u8; 12];
+    raw.read_exact(&mut msg).await?;
+    let (a, rest) = msg.split_at(3);
+    let (b, c) = rest.split_at(5);
+    let mut slices = [std::io::IoSlice::new(a), std::io::IoSlice::new(b), std::io::IoSlice::new(c)];
+    let mut bufs: &mut [std::io::IoSlice<'_>] = &mut slices;
+    while !bufs.is_empty() {
+        let n = raw.write_vectored(bufs).await?;
+        if n == 0 { break; }
+        std::io::IoSlice::advance_slices(&mut bufs, n);
+    }
+    raw.flush().await?;
+    raw.shutdown().await?;
+    Ok(())
+}
+
+/// {"op":"ws_stream","segments":[3,5,4]}: after a valid handshake, 12 bytes are sent in the given TCP segments; the handler must echo them
+fn op_ws_stream(case: &Value) -> Value {
+    use std::io::{Read, Write};
+    let segs: Vec<usize> = case["segments"].as_array().unwrap().iter().map(|x| x.as_u64().unwrap() as usize).collect();
+    let msg: Vec<u8> = (0..12u8).map(|i| b'a' + i).collect();
+    let rt = tokio::runtime::Builder::new_multi_thread().worker_threads(2).enable_all().build().unwrap();
+    rt.block_on(async move {
+        let mut api = ApiDescription::new();
+        api.register(ws_exact_channel).unwrap();
+        let log = slog::Logger::root(slog::Discard, slog::o!());
+        let server = dropshot::ServerBuilder::new(api, (), log).start().expect("server");
+        let addr = server.local_addr();
+        let out = tokio::task::spawn_blocking(move || {
+            let mut s = std::net::TcpStream::connect(addr).unwrap();
+            s.set_nodelay(true).unwrap();
+            s.set_read_timeout(Some(std::time::Duration::from_secs(5))).unwrap();
+            s.write_all(b"GET /ws-exact HTTP/1.1\r\nHost: replay\r\nConnection: Upgrade\r\nUpgrade: websocket\r\nSec-WebSocket-Version: 13\r\nSec-WebSocket-Key: dGhlIHNhbXBsZSBub25jZQ==\r\n\r\n").unwrap();
+            let mut head = vec![];
+            let mut one = [0u8; 1];
+            while !head.ends_with(b"\r\n\r\n") {
+                match s.read(&mut one) { Ok(1) => head.push(one[0]), _ => break }
+            }
+            if !head.starts_with(b"HTTP/1.1 101") { return json!({"as_specified": false, "why": "no 101", "head": String::from_utf8_lossy(&head)}); }
+            let mut off = 0;
+            for n in &segs {
+                let end = (off + n).min(msg.len());
+                // the peer may already have given up (that is a finding, not a crash of the replay)
+                if s.write_all(&msg[off..end]).is_err() { break; }
+                let _ = s.flush();
+                off = end;
+                std::thread::sleep(std::time::Duration::from_millis(40));
+            }
+            if off < msg.len() { let _ = s.write_all(&msg[off..]); }
+            let mut back = vec![];
+            let mut tmp = [0u8; 64];
+            loop {
+                match s.read(&mut tmp) { Ok(0) | Err(_) => break, Ok(n) => { back.extend_from_slice(&tmp[..n]); if back.len() >= msg.len() { break; } } }
+            }
+            json!({"as_specified": back == msg, "echoed": String::from_utf8_lossy(&back), "sent": String::from_utf8_lossy(&msg)})
+        }).await.unwrap();
+        let _ = tokio::time::timeout(std::time::Duration::from_millis(500), server.close()).await;
+        out
+    })
 }
 
 /// {"op":"ws_handshake","headers":{"connection":s|null|"non-ascii","upgrade":..,"version":s|null,"key":s|null}}
